@@ -3,8 +3,9 @@
 //! Every case is a sequence of calls on one `DictBuilder` (`read_conn` of a matrix text,
 //! `read_lexicon` of CSV bytes, `resolve`; usually read_conn -> read_lexicon -> resolve, but also
 //! several lexicon parts with a `resolve` after none/some/all of them, `read_conn` late or twice,
-//! a `read_conn` whose `Err` the caller ignores and then goes on: `Op::ConnIgn`)
-//! followed by `compile`.  The real builder is run under `catch_unwind`, every CSV text is split
+//! a `read_conn` whose `Err` the caller ignores and then goes on: `Op::ConnIgn`; a `read_lexicon`
+//! whose `Err` the caller ignores: `Op::LexIgn` - the rows parsed before the malformed one stay in
+//! the builder) followed by `compile`.  The real builder is run under `catch_unwind`, every CSV text is split
 //! into records by the real `csv` crate with the reader options of `LexiconReader::read_bytes`,
 //! and the records go to the Lean model on the case line.
 //! Oracle (independent of the model): no panic; a success must be a valid dictionary
@@ -80,9 +81,9 @@ pub fn probe_resolved_flag() -> &'static str {
     if body.contains("self.resolved=false") { "fix" } else { "cur" }
 }
 
-/// which of the repairs N1, N3, S4, S5, S6 the linked builder has — probed by BEHAVIOUR (the
-/// witnesses of the five findings on the real `DictBuilder`), so the flags follow whatever form
-/// the repair takes in the source: one character per repair, '1' = repaired
+/// which of the repairs N1, N3, S4, S5, S6, S7, S8 the linked builder has — probed by BEHAVIOUR (the
+/// witnesses of the findings / observations on the real `DictBuilder`), so the flags follow whatever
+/// form the repair takes in the source: one character per repair, '1' = repaired
 pub fn probe_fixes(system: Option<&JapaneseDictionary>) -> String {
     let row = |s: &str, l: i64, r: i64| format!("{},{},{},100,{},名詞,普通名詞,一般,*,*,*,{},{},*,A,*,*,*,*\n", s, l, r, s, s, s);
     let sys_case = |ops: Vec<Op>| Case { conn: None, csv: vec![], resolve: false, ops: Some(ops), desc: "probe".into(), user: false, ks: None, twice: false, tag: "probe".into() };
@@ -106,7 +107,18 @@ pub fn probe_fixes(system: Option<&JapaneseDictionary>) -> String {
     let s5 = matches!(run_pipeline(&sys_case(vec![ign("2 2\n0 0 x\n"), conn("2 2\n0 0 1\n"), lex(row("あ", 0, 0))]), None, None).0, Out::Ok { .. });
     // S6: a read_conn that failed after resizing the matrix to 1x1: ids (2, 2) are rejected after the repair
     let s6 = is_err(&run_pipeline(&sys_case(vec![conn("3 3\n"), ign("1 1\n0 0 x\n"), lex(row("あ", 2, 2))]), None, None).0, "InvalidFieldSize");
-    [n1, n3, s4, s5, s6].iter().map(|&b| if b { '1' } else { '0' }).collect()
+    // S7: a row rejected for its empty surface has inline splits: as the code stands it has bumped `unresolved`
+    // (compile answers UnresolvedSplits although no entry has an inline split)
+    let lex_ign = |t: String| Op::LexIgn(t.into_bytes());
+    let m11 = "1 1\n0 0 0\n";
+    let empty_inl = ",0,0,100,あ,名詞,普通名詞,一般,*,*,*,あ,あ,*,C,\"あ,名詞,普通名詞,一般,*,*,*,あ\",*,*,*\n".to_string();
+    let s7 = matches!(run_pipeline(&sys_case(vec![conn(m11), lex(row("あ", 0, 0)), lex_ign(empty_inl)]), None, None).0, Out::Ok { .. });
+    // S8: a read_lexicon that fails after a well-formed row: the row stays (2 words) / the text is read completely or not at all (1 word)
+    let s8 = match &run_pipeline(&sys_case(vec![conn(m11), lex_ign(format!("{}い,0\n", row("あ", 0, 0))), lex(row("う", 0, 0))]), None, None).0 {
+        Out::Ok { bytes, .. } => read_bin(bytes).map_or(false, |d| d.infos.len() == 1),
+        _ => false,
+    };
+    [n1, n3, s4, s5, s6, s7, s8].iter().map(|&b| if b { '1' } else { '0' }).collect()
 }
 
 // ---------------------------------------------------------------------------------------------
@@ -175,12 +187,17 @@ pub enum Op {
     /// `let _ = read_conn(text)`: an `Err` is ignored, the builder is used further
     ConnIgn(Vec<u8>),
     Lex(Vec<u8>),
+    /// `let _ = read_lexicon(text)`: an `Err` is ignored, the builder is used further
+    LexIgn(Vec<u8>),
     Resolve,
 }
 
 impl Op {
     fn conn_text(&self) -> Option<&Vec<u8>> {
         match self { Op::Conn(m) | Op::ConnIgn(m) => Some(m), _ => None }
+    }
+    fn lex_text(&self) -> Option<&Vec<u8>> {
+        match self { Op::Lex(d) | Op::LexIgn(d) => Some(d), _ => None }
     }
 }
 
@@ -261,7 +278,7 @@ fn err_of(e: &SudachiError) -> (String, Option<usize>) {
 const EPOCH: u64 = 1_600_000_000;
 
 /// the real pipeline; `sink` = Some((k, style)) writes into a sink that fails after k bytes
-/// second component: the results of the ignored `read_conn` calls that were made, in order
+/// second component: the results of the ignored `read_conn` / `read_lexicon` calls that were made, in order
 fn run_pipeline(c: &Case, system: Option<&JapaneseDictionary>, sink: Option<(usize, usize)>) -> (Out, Vec<String>) {
     let stage: Cell<&'static str> = Cell::new("conn");
     let at: Cell<usize> = Cell::new(0);
@@ -291,6 +308,14 @@ fn run_pipeline(c: &Case, system: Option<&JapaneseDictionary>, sink: Option<(usi
                         Op::Lex(d) => {
                             stage.set("lex");
                             $b.read_lexicon(&d[..]).map_err(|e| err_of(&e))?;
+                        }
+                        Op::LexIgn(d) => {
+                            stage.set("lex");
+                            let r = $b.read_lexicon(&d[..]);
+                            ign.borrow_mut().push(match r {
+                                Ok(_) => "ok".to_string(),
+                                Err(e) => match err_of(&e) { (k, Some(l)) if k != "Io" => format!("err:{}:{}", k, l), (k, _) => format!("err:{}", k) },
+                            });
                         }
                         Op::Resolve => {
                             stage.set("resolve");
@@ -1041,10 +1066,68 @@ fn directed(i: usize) -> Option<Case> {
                 _ => mk("ign-succeeds", vec![ign(m22), lex(two.clone()), Op::Resolve]),
             }
         }
+        // ---- a read_lexicon that FAILS, its Err ignored: the rows before the malformed one stay in the builder
+        70..=90 => {
+            let m11 = "1 1\n0 0 0\n";
+            let inl = |s: &str| format!("{},名詞,普通名詞,一般,*,*,*,{}", s, s);
+            let comp = |s: &str, units: &[&str]| -> Row { let mut r = row(s, 0, 0); r[14] = "C".into(); r[15] = units.iter().map(|u| inl(u)).collect::<Vec<_>>().join("/"); r };
+            let lex = |rows: Vec<Row>| Op::Lex(csv_bytes(&rows));
+            let lign = |rows: Vec<Row>| Op::LexIgn(csv_bytes(&rows));
+            let conn = |m: &str| Op::Conn(m.as_bytes().to_vec());
+            let mk = |tag: &str, ops: Vec<Op>| { let mut c = base(tag, m11, vec![]); c.ops = Some(ops); c };
+            let first = vec![row("あ", 0, 0), comp("ああ", &["あ", "あ"])];
+            let short: Row = vec!["い".into(), "0".into()];
+            match i {
+                // the shape of seed C06b: resolve() has set the flag, the failing read keeps a row with inline splits
+                70 => mk("lexign-inline-kept-after-resolve", vec![conn(m11), lex(first.clone()), Op::Resolve, lign(vec![comp("あああ", &["あ", "あ", "あ"]), short.clone()])]),
+                71 => mk("lexign-inline-kept-then-resolve", vec![conn(m11), lex(first.clone()), Op::Resolve, lign(vec![comp("あああ", &["あ", "あ", "あ"]), short.clone()]), Op::Resolve]),
+                // resolve() before any lexicon sets the flag as well
+                72 => mk("lexign-resolve-first", vec![conn(m11), Op::Resolve, lign(vec![row("あ", 0, 0), comp("ああ", &["あ", "あ"]), short.clone()])]),
+                // S7: the row rejected for its empty surface has bumped `unresolved`
+                73 => { let mut bad = comp("", &["あ", "あ"]); bad[4] = "あ".into(); mk("lexign-s7-empty-surface-inline", vec![conn(m11), lex(vec![row("あ", 0, 0)]), lign(vec![bad])]) }
+                // the malformed row registers its POS: A-mode with splits is detected after pos_of
+                74 => { let mut bad = row("い", 0, 0); bad[5] = "新品詞".into(); bad[15] = "0".into(); mk("lexign-pos-of-bad-row", vec![conn(m11), lex(vec![row("あ", 0, 0)]), lign(vec![bad]), Op::Resolve]) }
+                // the inline units before the malformed one register their POS
+                75 => { let mut bad = row("い", 0, 0); bad[14] = "C".into(); bad[15] = "新,新品詞,*,*,*,*,*,新/\\u{110000},名詞,普通名詞,一般,*,*,*,x".into(); mk("lexign-pos-of-inline-unit", vec![conn(m11), lex(vec![row("あ", 0, 0)]), lign(vec![bad]), Op::Resolve]) }
+                // ... also when the list is rejected for its length (128 units, all parsed)
+                76 => { let mut bad = row("い", 0, 0); bad[14] = "C".into(); bad[16] = (0..128).map(|_| "新,新品詞,*,*,*,*,*,新").collect::<Vec<_>>().join("/"); mk("lexign-pos-of-128-units", vec![conn(m11), lex(vec![row("あ", 0, 0)]), lign(vec![bad]), Op::Resolve]) }
+                // S8: reading the corrected text again duplicates the rows the failed call kept
+                77 => mk("lexign-retry-duplicates", vec![conn(m11), lign(vec![row("あ", 0, 0), row("い", 0, 0), short.clone()]), lex(vec![row("あ", 0, 0), row("い", 0, 0), row("う", 0, 0)]), Op::Resolve]),
+                // a kept row refers (by id) to a row after the malformed one, which was never read: validated like any other
+                78 => { let mut a = row("あ", 0, 0); a[13] = "2".into(); mk("lexign-kept-dangling-ref", vec![conn(m11), lign(vec![a, short.clone(), row("う", 0, 0)]), Op::Resolve]) }
+                // ... by an inline unit: resolve() fails on the kept row
+                79 => mk("lexign-kept-dangling-inline", vec![conn(m11), lign(vec![comp("あう", &["あ", "う"]), row("あ", 0, 0), short.clone(), row("う", 0, 0)]), Op::Resolve]),
+                // the csv reader fails (invalid UTF-8) after two records
+                80 => { let mut d = csv_bytes(&[row("あ", 0, 0), comp("ああ", &["あ", "あ"])]); d.extend_from_slice(&[0xff, 0xfe, b',', b'1', b'\n']); mk("lexign-csv-error", vec![conn(m11), Op::LexIgn(d), Op::Resolve]) }
+                // the first record is malformed: nothing is kept, the flag is cleared, the counter is not
+                81 => mk("lexign-first-row-bad", vec![conn(m11), lex(first.clone()), Op::Resolve, lign(vec![short.clone(), row("い", 0, 0)])]),
+                // the ignored call succeeds: same as read_lexicon(..)?
+                82 => mk("lexign-succeeds", vec![conn(m11), lign(first.clone()), Op::Resolve]),
+                83 => {
+                    let sys_inl = "東京都,名詞,普通名詞,一般,*,*,*,トウキョウト/都,名詞,普通名詞,一般,*,*,*,ト";
+                    let mut a = row("東京都庁", 0, 0); a[14] = "C".into(); a[15] = sys_inl.into();
+                    let mut c = mk("lexign-user", vec![lex(vec![row("大阪", 0, 0)]), Op::Resolve, lign(vec![a, short.clone()])]); c.user = true; c
+                }
+                // two failing parts, a matrix read whose Err is ignored in between
+                84 => mk("lexign-twice-and-connign", vec![conn(m11), lign(vec![row("あ", 0, 0), short.clone()]), Op::ConnIgn(b"1 1\n0 0 x\n".to_vec()), lign(vec![comp("ああ", &["あ", "あ"]), short.clone()]), Op::Resolve]),
+                // a NUL surface is rejected (D5): the rows before it stay
+                85 => mk("lexign-nul-surface", vec![conn(m11), lign(vec![row("あ", 0, 0), row("い\\u0000", 0, 0), row("う", 0, 0)]), Op::Resolve]),
+                // only failed reads: no entry at all
+                86 => mk("lexign-nothing-kept", vec![conn(m11), lign(vec![short.clone()])]),
+                // an A-mode row with INLINE splits is rejected before `unresolved` is raised: compile needs no resolve()
+                88 => { let mut bad = row("い", 0, 0); bad[15] = inl("あ"); mk("lexign-amode-inline-not-counted", vec![conn(m11), lex(vec![row("あ", 0, 0)]), lign(vec![bad])]) }
+                // the inline unit that fails (bad escape in its reading, the last part) has NOT registered its new POS
+                89 => { let mut bad = row("い", 0, 0); bad[14] = "C".into(); bad[15] = "新,新品詞,*,*,*,*,*,\\uD800".into(); mk("lexign-failing-unit-registers-nothing", vec![conn(m11), lex(vec![row("あ", 0, 0)]), lign(vec![bad]), Op::Resolve]) }
+                // a full-width digit in the split list of the malformed row: `^U?\\d+$` matches, parse_wordid rejects (InvalidWordId, not SplitFormatError)
+                90 => { let mut bad = row("い", 0, 0); bad[14] = "C".into(); bad[15] = "１/0".into(); mk("lexign-fullwidth-digit-in-bad-row", vec![conn(m11), lign(vec![row("あ", 0, 0), bad]), Op::Resolve]) }
+                // every sink offset after a failed read
+                _ => { let mut c = mk("lexign-sink-all", vec![conn(m11), lign(vec![row("あ", 0, 0), comp("ああ", &["あ", "あ"]), short.clone()]), Op::Resolve]); c.ks = Some(vec![]); c }
+            }
+        }
         _ => return None,
     })
 }
-const DIRECTED: usize = 70;
+const DIRECTED: usize = 91;
 
 fn inline_of(q: &Row) -> String {
     format!("{},{},{},{},{},{},{},{}", q[0], q[5], q[6], q[7], q[8], q[9], q[10], q[11])
@@ -1197,9 +1280,113 @@ fn gen_connseq(rng: &mut Rng) -> Case {
     }
 }
 
+/// 1-3 lexicon parts on one builder; one of them is malformed at a random row, usually AFTER rows
+/// with inline split references, and its `Err` is ignored (`let _ = read_lexicon(..)`): the rows
+/// before the malformed one stay in the builder.  `resolve()` before / after the failing part or
+/// not at all, sometimes the corrected part is read again, then `compile`.
+fn gen_lexign(rng: &mut Rng) -> Case {
+    let user = rng.chance(1, 5);
+    let nl = rng.range(1, 4);
+    let (unl, unr) = if user { (SYS_N, SYS_N) } else { (nl, nl) };
+    let nparts = rng.range(1, 3);
+    let nbase = rng.range(1, 5);
+    let mut base: Vec<Row> = (0..nbase).map(|_| valid_row(rng, unl, unr)).collect();
+    if base.iter().all(|r| r[1].starts_with('-')) { base[0][1] = "0".into(); base[0][2] = "0".into(); }
+    let mut part_of: Vec<usize> = (0..nbase).map(|_| rng.below(nparts)).collect();
+    part_of.sort();
+    let mut parts: Vec<Vec<Row>> = vec![vec![]; nparts];
+    for i in 0..nbase { parts[part_of[i]].push(base[i].clone()); }
+    // compound rows with inline references to base rows of any part
+    let compound = |rng: &mut Rng, base: &Vec<Row>| -> Row {
+        let k = rng.range(2, 3);
+        let units: Vec<usize> = (0..k).map(|_| rng.below(base.len())).collect();
+        let surface: String = units.iter().map(|&i| base[i][0].clone()).collect();
+        let mut r = valid_row(rng, unl, unr);
+        r[0] = surface.clone(); r[4] = surface.clone(); r[11] = surface.clone(); r[12] = surface;
+        r[14] = (*rng.pick(&["C", "C", "B"])).to_string();
+        let inl = join(units.iter().map(|&i| { let mut q = base[i].clone(); if rng.chance(1, 16) { q[11] = "ゼ".into(); } inline_of(&q) }), "/");
+        match rng.below(4) { 0 => { r[16] = inl; } 1 => { r[15] = inl.clone(); r[16] = inl; } _ => { r[15] = inl; } }
+        r
+    };
+    for p in 0..nparts { for _ in 0..rng.below(3) { let r = compound(rng, &base); parts[p].push(r); } }
+    // the failing part: a malformed row, with rows that have inline references before it (2/3)
+    let f = rng.below(nparts);
+    let fails = rng.chance(7, 8);
+    let mut tag = format!("lexign{}", nparts);
+    let good_f = parts[f].clone();
+    let mut csv_tail: Vec<u8> = vec![];
+    if fails {
+        if rng.chance(2, 3) { let r = compound(rng, &base); let at = rng.below(parts[f].len() + 1); parts[f].insert(at, r); }
+        let last_inline = parts[f].iter().rposition(|r| has_inline_unit(&r[15]) || has_inline_unit(&r[16]));
+        let at = match last_inline { Some(j) if rng.chance(3, 4) => rng.range(j + 1, parts[f].len()), _ => rng.below(parts[f].len() + 1) };
+        let mut bad = if rng.chance(1, 2) { compound(rng, &base) } else { valid_row(rng, unl, unr) };
+        let new_inl = |rng: &mut Rng| format!("{},品{},*,*,*,*,*,{}", rng.pick(SURF), rng.below(4), rng.pick(READ));
+        let kind = rng.below(14);
+        tag.push(':');
+        tag.push_str(match kind {
+            0 => { let k = rng.below(19); bad.truncate(k); "truncate-row" }
+            1 => { let c = *rng.pick(&[1usize, 2, 3]); bad[c] = boundary_int(rng, unl); "number" }
+            // empty surface + inline splits: `unresolved` is bumped before the surface is looked at (S7)
+            2 => { bad[0] = "".into(); bad[14] = "C".into(); if !has_inline_unit(&bad[15]) { bad[15] = inline_of(&base[0]); } "empty-surface-inline" }
+            // A-mode with splits: detected after the POS of the row (a new one) was registered
+            3 => { bad[5] = format!("品{}", rng.below(4)); bad[14] = "A".into(); bad[15] = if rng.chance(1, 2) { "0".into() } else { new_inl(rng) }; "a-mode-splits-new-pos" }
+            // an inline list whose later unit is malformed: the earlier units have registered their POS
+            4 => { bad[14] = "C".into(); let c = *rng.pick(&[15usize, 16]); bad[c] = format!("{}/{}", new_inl(rng), rng.pick(&["\\u{110000},名詞,普通名詞,一般,*,*,*,x", "あ,名詞", "U", "-1", "あ,名詞,普通名詞,一般,*,*,*,\\uD800", "あ,品9,*,*,*,*,*,\\uD800", "あ,品8,*,*,*,*,*,\\u{110000}"])); "inline-list-later-unit" }
+            5 => { bad[14] = "C".into(); let c = *rng.pick(&[15usize, 16]); let u = new_inl(rng); bad[c] = (0..128).map(|_| u.clone()).collect::<Vec<_>>().join("/"); "inline-list-128" }
+            // field 15 fine (new POS registered), a later field malformed
+            6 => { bad[14] = "C".into(); bad[15] = new_inl(rng); let c = *rng.pick(&[16usize, 17, 18]); bad[c] = (*rng.pick(&["x", "1//2", "U", "4294967296"])).to_string(); "later-field-after-inline" }
+            7 => { bad[13] = junk_wid(rng, 5); if bad[13] == "*" || bad[13].parse::<u32>().map_or(false, |v| v < 268435456) || bad[13].strip_prefix('U').map_or(false, |d| d.parse::<u32>().map_or(false, |v| v < 268435456)) { bad[13] = "x".into(); } "dic-form" }
+            8 => { bad[0] = (*rng.pick(&["\\u0000", "a\\u{0}", "あ\u{0}い"])).to_string(); "nul-surface" }
+            9 => { bad[14] = junk_mode(rng); if ["A", "a", "B", "b", "C", "c", "*", "BC", " A ", "\u{3000}B"].contains(&bad[14].as_str()) { bad[14] = "x".into(); } "mode" }
+            10 => { let c = *rng.pick(&[0usize, 4, 5, 11, 12]); bad[c] = (*rng.pick(&["\\u{110000}", "\\uD800", "\\u{D800}"])).to_string(); "bad-escape" }
+            11 => { csv_tail = vec![0xff, 0xfe, b',', b'1', b'\n']; "csv-invalid-utf8" }
+            12 => { bad[0] = "x".repeat(32768); "over-long" }
+            _ => { let mut one = vec![bad.clone()]; for _ in 0..3 { let t = malform_rows(rng, &mut one, unl, unr); if one.len() == 1 { bad = one[0].clone(); if t != "skip" && t != "none" { break; } } else { one = vec![bad.clone()]; } } "malform-rows" }
+        });
+        if csv_tail.is_empty() { let at = at.min(parts[f].len()); parts[f].insert(at, bad); }
+    }
+    // which resolve() calls: the flag must have been set before the failing read for the stale-flag shape
+    let mut ops: Vec<Op> = vec![];
+    if rng.chance(1, 8) { ops.push(Op::Resolve); }
+    let res_before = rng.chance(2, 3);
+    let res_after = rng.chance(1, 2);
+    for p in 0..nparts {
+        let mut data = csv_bytes(&parts[p]);
+        if p == f && !csv_tail.is_empty() {
+            // the csv failure after a random number of whole records
+            let keep = rng.below(parts[p].len() + 1);
+            data = csv_bytes(&parts[p][..keep]);
+            data.extend_from_slice(&csv_tail);
+            data.extend_from_slice(&csv_bytes(&parts[p][keep..]));
+        }
+        let ignore = (p == f && fails) || rng.chance(1, 5);
+        ops.push(if ignore { Op::LexIgn(data) } else { Op::Lex(data) });
+        if p == f && fails && rng.chance(1, 5) {
+            // the caller corrects the text and reads it again
+            ops.push(if rng.chance(1, 2) { Op::Lex(csv_bytes(&good_f)) } else { Op::LexIgn(csv_bytes(&good_f)) });
+            tag.push_str(":retry");
+        }
+        if p + 1 == f && res_before { ops.push(Op::Resolve); }
+        else if p >= f && p + 1 == nparts && res_after { ops.push(Op::Resolve); }
+        else if p != f && rng.chance(1, 4) { ops.push(Op::Resolve); }
+    }
+    if user {
+        if rng.chance(1, 10) { let at = rng.below(ops.len() + 1); ops.insert(at, Op::ConnIgn(matrix_text(SYS_N, SYS_N, rng).into_bytes())); }
+    } else {
+        let m = matrix_text(nl, nl, rng).into_bytes();
+        if rng.chance(1, 12) { let at = rng.below(ops.len() + 1); ops.insert(at, Op::ConnIgn(b"2 2\n0 0 x\n".to_vec())); }
+        if rng.chance(1, 10) { let at = 1 + rng.below(ops.len()); ops.insert(at, Op::Conn(m)); } else { ops.insert(0, Op::Conn(m)); }
+    }
+    Case {
+        conn: None, csv: vec![], resolve: false, ops: Some(ops), desc: "verif".into(), user,
+        ks: if rng.chance(1, 6) { Some(vec![usize::MAX]) } else { None }, twice: rng.chance(1, 5), tag,
+    }
+}
+
 fn gen_case(rng: &mut Rng, idx: usize) -> Case {
     if let Some(c) = directed(idx) { return c; }
-    let kind = rng.below(116);
+    let kind = rng.below(126);
+    if kind >= 116 { return gen_lexign(rng); }
     if kind >= 108 { return gen_connseq(rng); }
     if kind >= 100 { return gen_multipart(rng); }
     let square = rng.chance(11, 12);
@@ -1291,6 +1478,22 @@ fn show_out(o: &Out, bin: Option<&BinDict>) -> String {
     }
 }
 
+/// what `compile` answered on the builder an ignored `read_lexicon` left (`with_res`: after `resolve()`)
+fn probe_str(o: &Out, with_res: bool, nul: bool) -> String {
+    match o {
+        Out::Ok { .. } | Out::Panic { stage: "compile", .. } if nul => "NULKEY".into(),
+        Out::Ok { bytes, res, .. } => match read_bin(bytes) {
+            Ok(d) => format!("ok:{}w{}:p{}", if with_res { format!("r{}:", res) } else { String::new() }, d.infos.len(), d.pos.len()),
+            Err(_) => "ok:?".into(),
+        },
+        Out::Err { stage, kind, line, .. } => match line {
+            Some(l) if kind != "Io" => format!("err:{}:{}@{}", kind, l, stage),
+            _ => format!("err:{}@{}", kind, stage),
+        },
+        Out::Panic { .. } => "PANIC".into(),
+    }
+}
+
 fn short_out(o: &Out) -> String {
     match o {
         Out::Ok { len, .. } => format!("ok:{}", len),
@@ -1333,7 +1536,7 @@ splits, 127/128 arrays and homographs), of the matrix text (empty, blank, header
 negative, CRLF/tabs/Unicode spaces, invalid UTF-8), byte-level mutations and random bytes through the real csv reader, user dictionaries \
 over a fixed system dictionary, pipeline variations (resolve skipped, description length; the lexicon read in 1-3 parts with resolve() \
 after none/some/all of them and before the first, compound rows referring to rows of earlier/the same/later parts by inline splits and \
-ids, read_conn late or twice, compile called twice; system and user dictionaries); sink failures at every offset (small) or at \
+ids, read_conn late or twice, compile called twice; system and user dictionaries; read_lexicon calls that FAIL at a random row - truncated, bad number / escape / mode / id, empty or NUL surface with inline splits, A-mode with splits and a new POS, inline lists whose later unit is malformed or that are too long, csv reader failure - usually after rows with inline references, their Err IGNORED, with resolve() before / after / never and the corrected text sometimes read again); sink failures at every offset (small) or at \
 every write boundary +-1 and random offsets; non-trivial = the case reaches a stage after reading (resolve/compile) or fails with a \
 build error other than the generic arity error; distinct by case line".into();
     let variant = probe_variant();
@@ -1361,7 +1564,9 @@ build error other than the generic arity error; distinct by case line".into();
 
     // N1, N3, S4, S5, S6: which repairs the linked builder has (by behaviour)
     let fx = probe_fixes(sys.as_ref().map(|s| &s.dic));
-    run.extra.insert("variant_n1_n3_s4_s5_s6".into(), serde_json::json!(fx));
+    run.extra.insert("variant_n1_n3_s4_s5_s6_s7_s8".into(), serde_json::json!(fx));
+    // S8 repaired: a read_lexicon that fails leaves no row behind
+    let atomic = fx.as_bytes().get(6) == Some(&b'1');
 
     let n = run.opts.count;
     for idx in 0..n {
@@ -1375,11 +1580,37 @@ build error other than the generic arity error; distinct by case line".into();
         // the real implementation, unlimited sink
         let (out, ign_trace) = run_pipeline(&case, sysdic, None);
         let ops = case.ops();
-        let per_op: Vec<Option<Recs>> = ops.iter().map(|o| match o { Op::Lex(d) => Some(split_csv(d)), _ => None }).collect();
-        // the records of all lexicon parts in order (= the entries of the builder when every call succeeded)
+        let per_op: Vec<Option<Recs>> = ops.iter().map(|o| o.lex_text().map(|d| split_csv(d))).collect();
+        // the ignored calls that were made: position of the call -> its result
+        let ign_at: Vec<(usize, String)> = ops.iter().enumerate().filter(|(_, o)| matches!(o, Op::ConnIgn(_) | Op::LexIgn(_))).map(|(i, _)| i).zip(ign_trace.iter().cloned()).collect();
+        // the records every read_lexicon call left in the builder: all of them when it succeeded; when
+        // its Err was ignored the records before the malformed one (the error names its line; a csv
+        // failure comes after the delivered records) - none at all once read_lexicon is atomic (S8 repaired)
+        let kept_per_op: Vec<Recs> = ops.iter().enumerate().map(|(i, o)| {
+            let mut k = Recs { recs: vec![], lines: vec![], csverr: None };
+            let r = match &per_op[i] { Some(r) => r, None => return k };
+            let upto = match o {
+                Op::LexIgn(_) => match ign_at.iter().find(|c| c.0 == i) {
+                    None => 0,
+                    Some((_, res)) if res == "ok" => r.recs.len(),
+                    Some(_) if atomic => 0,
+                    Some((_, res)) if res.starts_with("err:Csv") => r.recs.len(),
+                    Some((_, res)) => {
+                        let line: u64 = res.rsplit(':').next().and_then(|x| x.parse().ok()).unwrap_or(0);
+                        r.lines.iter().position(|&l| l == line).unwrap_or(r.recs.len())
+                    }
+                },
+                _ => r.recs.len(),
+            };
+            k.recs = r.recs[..upto].to_vec();
+            k.lines = r.lines[..upto].to_vec();
+            k.csverr = r.csverr;
+            k
+        }).collect();
+        // the records of all lexicon parts in order (= the entries of the builder when compile is reached)
         let recs = {
             let mut all = Recs { recs: vec![], lines: vec![], csverr: None };
-            for r in per_op.iter().flatten() {
+            for r in kept_per_op.iter() {
                 all.recs.extend(r.recs.iter().cloned());
                 all.lines.extend(r.lines.iter().cloned());
                 if all.csverr.is_none() { all.csverr = r.csverr; }
@@ -1390,13 +1621,12 @@ build error other than the generic arity error; distinct by case line".into();
         let executed = match &out { Out::Ok { .. } => ops.len(), Out::Err { at, .. } | Out::Panic { at, .. } => *at };
         let conn_calls: Vec<(usize, &Vec<u8>, String)> = {
             let mut v = vec![];
-            let mut j = 0;
             for (i, o) in ops.iter().enumerate() {
                 if i > executed { break; }
                 match o {
                     Op::Conn(m) if i < executed => v.push((i, m, "ok".to_string())),
                     Op::Conn(m) => if let Out::Err { stage, .. } = &out { if *stage == "conn" { v.push((i, m, short_out(&out))); } },
-                    Op::ConnIgn(m) => if let Some(r) = ign_trace.get(j) { v.push((i, m, r.clone())); j += 1; },
+                    Op::ConnIgn(m) => if let Some((_, r)) = ign_at.iter().find(|c| c.0 == i) { v.push((i, m, r.clone())); },
                     _ => {}
                 }
             }
@@ -1412,6 +1642,18 @@ build error other than the generic arity error; distinct by case line".into();
         let indexable: Vec<bool> = recs.recs.iter().map(|r| r.get(1).and_then(|s| s.parse::<i16>().ok()).map_or(false, |v| v >= 0)).collect();
         let any_indexable = indexable.iter().any(|&b| b);
         let nul_indexed = recs.recs.iter().zip(&indexable).any(|(r, &ix)| ix && r.get(0).map_or(false, |s| s.contains('\0') || naive_unescape(s).map_or(false, |u| u.contains('\0'))));
+        // the same for the records kept by the calls up to position i (probes of an ignored read_lexicon)
+        let nul_upto = |i: usize| kept_per_op[..=i].iter().flat_map(|k| k.recs.iter()).any(|r| {
+            r.get(1).and_then(|s| s.parse::<i16>().ok()).map_or(false, |v| v >= 0) && r.get(0).map_or(false, |s| s.contains('\0') || naive_unescape(s).map_or(false, |u| u.contains('\0')))
+        });
+        // what the builder an ignored read_lexicon left answers to `compile` (A) and to `resolve` + `compile` (B):
+        // the calls up to it are replayed on a new builder
+        let lex_probes: Vec<(usize, String)> = ign_at.iter().filter(|(i, _)| matches!(ops[*i], Op::LexIgn(_))).map(|(i, _)| {
+            let mk = |extra: Option<Op>| { let mut c = case.clone(); let mut o = ops[..=*i].to_vec(); if let Some(e) = extra { o.push(e); } c.ops = Some(o); c.twice = false; c.ks = None; c };
+            let a = run_pipeline(&mk(None), sysdic, None).0;
+            let b = run_pipeline(&mk(Some(Op::Resolve)), sysdic, None).0;
+            (*i, format!("{}/{}", probe_str(&a, false, nul_upto(*i)), probe_str(&b, true, nul_upto(*i))))
+        }).collect();
 
         // sink offsets
         let mut ks: Vec<usize> = vec![];
@@ -1435,16 +1677,18 @@ build error other than the generic arity error; distinct by case line".into();
 
         // ---------------- case line
         let mut nd: Vec<u32> = vec![];
-        for r in &recs.recs { for f in r.iter().skip(15).take(2) { for ch in f.chars() { if !ch.is_ascii_digit() && is_nd(ch) { nd.push(ch as u32); } } } }
+        // over ALL records the csv reader delivered (also the malformed ones and those behind them)
+        for r in per_op.iter().flatten().flat_map(|p| p.recs.iter()) { for f in r.iter().skip(15).take(2) { for ch in f.chars() { if !ch.is_ascii_digit() && is_nd(ch) { nd.push(ch as u32); } } } }
         nd.sort();
         nd.dedup();
         let ops_tok = ops.iter().zip(&per_op).map(|(o, r)| match (o, r) {
             (Op::Conn(m), _) => format!("C{}", hex(m)),
             (Op::ConnIgn(m), _) => format!("I{}", hex(m)),
             (Op::Resolve, _) => "R".to_string(),
-            (Op::Lex(_), Some(r)) => format!("L{}!{}!{}", r.csverr.map_or("-".to_string(), |l| l.to_string()), join(r.lines.iter(), ","),
+            (Op::Lex(_), Some(r)) | (Op::LexIgn(_), Some(r)) => format!("{}{}!{}!{}", if matches!(o, Op::Lex(_)) { 'L' } else { 'J' }, r.csverr.map_or("-".to_string(), |l| l.to_string()), join(r.lines.iter(), ","),
                 r.recs.iter().map(|x| x.iter().map(|f| hexs(f)).collect::<Vec<_>>().join(":")).collect::<Vec<_>>().join(";")),
             (Op::Lex(_), None) => "L-!!".to_string(),
+            (Op::LexIgn(_), None) => "J-!!".to_string(),
         }).collect::<Vec<_>>().join("|");
         let (user_tok, upos, usys) = match sysd {
             Some(s) => (format!("{},{},{}", SYS_ROWS.len(), SYS_N, SYS_N), s.upos.clone(), s.usys.clone()),
@@ -1459,8 +1703,9 @@ build error other than the generic arity error; distinct by case line".into();
         // builder's contract (it panics or silently builds a corrupt trie): both count as NULKEY
         let reached_index_with_nul = nul_indexed && match &out { Out::Ok { .. } => true, Out::Panic { stage, .. } => *stage == "compile", _ => false };
         let mut answer = if reached_index_with_nul { "NULKEY".to_string() } else { show_out(&out, bin.as_ref()) };
-        if ops.iter().any(|o| matches!(o, Op::ConnIgn(_))) {
-            answer.push_str(&format!(" ign={}", ign_trace.join(",")));
+        if ops.iter().any(|o| matches!(o, Op::ConnIgn(_) | Op::LexIgn(_))) {
+            let items: Vec<String> = ign_at.iter().map(|(i, r)| match lex_probes.iter().find(|p| p.0 == *i) { Some((_, p)) => format!("{}/{}", r, p), None => r.clone() }).collect();
+            answer.push_str(&format!(" ign={}", items.join(",")));
         }
         if !ks.is_empty() {
             let items: Vec<String> = sink_outs.iter().map(|o| if nul_indexed && matches!(o, Out::Ok { .. } | Out::Panic { .. }) { "NULKEY".to_string() } else { short_out(o) }).collect();
@@ -1483,8 +1728,16 @@ build error other than the generic arity error; distinct by case line".into();
         if case.user { run.bump("user-dictionary"); }
         if recs.csverr.is_some() { run.bump("csv-reader-error"); }
         if case.ops.is_some() {
-            run.bump(&format!("calls:{}", ops.iter().map(|o| match o { Op::Conn(_) => 'C', Op::ConnIgn(_) => 'I', Op::Lex(_) => 'L', Op::Resolve => 'R' }).collect::<String>()));
+            run.bump(&format!("calls:{}", ops.iter().map(|o| match o { Op::Conn(_) => 'C', Op::ConnIgn(_) => 'I', Op::Lex(_) => 'L', Op::LexIgn(_) => 'J', Op::Resolve => 'R' }).collect::<String>()));
             if failed_ign { run.bump("ignored-read-conn-error"); }
+            for (i, r) in &ign_at {
+                if !matches!(ops[*i], Op::LexIgn(_)) || r == "ok" { continue; }
+                run.bump("ignored-read-lexicon-error");
+                run.bump(&format!("ignored-read-lexicon:{}", r.split(':').nth(1).unwrap_or("?")));
+                let kept = &kept_per_op[*i];
+                if !kept.recs.is_empty() { run.bump("ignored-read-lexicon-error:rows-kept"); }
+                if kept.recs.iter().any(|x| x.iter().skip(15).take(2).any(|f| has_inline_unit(f))) { run.bump("ignored-read-lexicon-error:inline-rows-kept"); }
+            }
             if conn_calls.iter().filter(|c| c.2 == "ok").count() > 1 { run.bump("matrix-read-more-than-once"); }
         }
         if case.twice && matches!(out, Out::Ok { .. }) { run.bump("compiled-twice"); }
@@ -1495,7 +1748,7 @@ build error other than the generic arity error; distinct by case line".into();
         // the builder's `resolved` flag is stale at `compile`: some resolve() was called, and a
         // read_lexicon after the last one brought a row with an inline split (judged from the input)
         let stale_flag = match ops.iter().rposition(|o| matches!(o, Op::Resolve)) {
-            Some(r) => per_op[r + 1..].iter().flatten().any(|p| p.recs.iter().any(|x| x.iter().skip(15).take(2).any(|f| has_inline_unit(f)))),
+            Some(r) => kept_per_op[r + 1..].iter().any(|p| p.recs.iter().any(|x| x.iter().skip(15).take(2).any(|f| has_inline_unit(f)))),
             None => false,
         };
         if stale_flag { run.bump("stale-flag-shape"); }
@@ -1607,6 +1860,11 @@ fn validity(run: &mut Run, idx: usize, case: &Case, has_conn: bool, failed_ign: 
     };
     let user = sysd.is_some();
     let n = d.infos.len();
+    // (0) what is in the dictionary: one entry per record the read_lexicon calls kept - all records of a call
+    // that succeeded, the records before the malformed one of a call whose Err was ignored
+    if n != recs.recs.len() {
+        run.fail(idx, "valid:entry-count", &format!("the dictionary has {} entries, the read_lexicon calls kept {} records ({})", n, recs.recs.len(), case.tag));
+    }
     let n_sys = if user { SYS_ROWS.len() } else { n };
     let (nl, nr) = if user { (SYS_N as i64, SYS_N as i64) } else { (d.nl as i64, d.nr as i64) };
     let n_pos = if user { SYS_POS.len() + d.pos.len() } else { d.pos.len() };
